@@ -223,12 +223,16 @@ def judge_idempotent(world, out, prop="C15"):
     viol = []
     digs = [(r["i"], r["digest"], r.get("n"), r.get("evals")) for r in recs if r["k"] == "run_digest"]
     fin = {r["i"]: r for r in recs if r["k"] == "constructed"}
+    finished = {r["i"]: bool(r.get("finalised")) for r in recs if r["k"] == "result"}
     base = None
     n = 0
     for (i, d, nn, ev) in digs:
         c = fin.get(i)
         if base is None:
-            base = (i, d, nn, ev)
+            # the reference is the first incarnation that returned a *finished* (converged) run;
+            # a run cut by the iteration cap legitimately continues when resumed
+            if finished.get(i):
+                base = (i, d, nn, ev)
             continue
         if c is not None and c.get("resumed") and c.get("finalised"):
             n += 1
